@@ -42,6 +42,7 @@ func checkC18(c *Ctx) {
 	c.retainedStoredClean()
 	c.cloneBeforeMutate()
 	c.retentionFresh("sessions", "AckMsg", map[string]string{"OnComplete": "the completion callback is meant to be retained"})
+	c.queueHandsOutOnlyRemovedEntries()
 	c.retentionFresh("topics", "rnode", map[string]string{})
 	// per-object buffers and lists do not start as views of package-level memory
 	c.noSharedBacking()
